@@ -23,6 +23,10 @@ CHECKS = {
  "C04": dict(
    text="Proof (Coq, partial): only staging bundles are ever discarded; an immutable object is never replaced by different bytes. Completeness and byte-exactness of every tile behind the published checkpoint are decided per run: the extracted model predicts the digest of every uploaded object from the specification-level rendering of the leaf list (operation-level equality), and the monitor C04.audit re-reads all data/names/hash tiles and issuers behind every effective checkpoint upload against an independent RFC 6962 tree.",
    ref="5 (C04)", note=SEQ_NOTE + " Storage-completeness invariant I3 is not yet a theorem; names tiles only for unparseable certificates.", technique="Coq theorems (C04_partial_*) + byte-level digest correspondence of every upload + full storage audit monitor"),
+ "C05": dict(
+   text="Proof (Coq) on the protocol model, partial: for all schedules of any number of clients (lost replies, dropped requests, pending calls, reopen) each backend — the SQLite, DynamoDB and ETag clients (content-hash ETags for any injective hash, or version-counter ETags) as client protocols over a server with atomic requests — simulates the by-value compare-and-swap register, so every schedule has a real-time-respecting linearization; the property's five sentences are corollaries; refutations for the pre-fix ETag client, reads without ConsistentRead, by-value comparison under version ETags and SDK retry after A->B->A. An executable linearizability checker is proved sound and complete, extracted, and run window by window on recorded histories of a real SQLite file hammered by goroutines, connections and a killed/restarted child process. Line-level differential of the three real backends (DynamoDB/S3 through protocol-level fake endpoints that also log the wire requests).",
+   ref="5 (C05), 0.3", note="Assumed (trusted base): atomicity and durability of single SQLite statements, DynamoDB conditional writes/consistent reads and S3-compatible If-Match (SQLite additionally exercised); empty If-Match = create-only is Tigris-specific; one request per call; the fake endpoints transcribe the Coq server models; Coq kernel, extraction, OCaml/Go drivers. Known finding C05-sdk-retry-aba; ETag missing-log fix b39ed72.",
+   technique="Coq simulation/refinement proof of client protocols against a CAS register + proved-sound extracted linearizability checker on real SQLite histories + wire-level differential"),
  "C06": dict(
    text="Proof (Coq, all interleavings at operation granularity of any number of instances): lock history has no repeated value, the lock is its last element, a refused compare-and-swap changes nothing, is fatal and acknowledges nothing, CreateLog never overwrites, LoadLog refuses storage-ahead / same-size-other-root / foreign key or name / extension. Tie: two gated real instances with hold points, start-up state scenarios. The rollback of the *published* checkpoint by a superseded instance is a confirmed known finding.",
    ref="5 (C06), 0.3", note=SEQ_NOTE, technique="Coq invariant + step lemmas over the multi-instance sequencer model + differential two-instance histories"),
@@ -32,6 +36,10 @@ CHECKS = {
  "C08": dict(
    text="Proof (Coq): tampering events (any object replaced by anything or deleted, anywhere in the event list) are part of the quantified event lists of the invariant: the committed history stays one append-only chain. Partial: the verifying tile reader is a specification in the model; the tamper stream of the harness (delete, truncate, bit-flip, substitute, checkpoint rollback, then restart and further rounds) checks the real reader against it.",
    ref="5 (C08)", note=SEQ_NOTE, technique="Coq invariant closed under arbitrary EvTamper events (C08_partial) + differential tamper histories"),
+ "C09": dict(
+   text="Proof (Coq) on the decision model, partial: over abstract certificates and for all oracle behaviours meeting an explicit contract of ctfe.ValidateChain/BuildPrecertTBS, the handler logic reaches the pool exactly for acceptable requests, with exactly the RFC 6962 3.1/3.2 entry written separately from the transcription (x509 / defanged TBS; issuer key hash from chain[1] or chain[2] behind a precertificate signing certificate; issuers = chain[1..]), rejects everything else with a 4xx before the pool (full strength after fixes ac90d60/48383da; the pre-fix handler is kept with refutation witnesses), get-roots = parse of the last accepted PEM over all reload histories and restarts. Tie: ~640 real DER chains per run from a stdlib-generated CA hierarchy posted to the real handler of a real log with the real sequencer; ct-go independent leaf, SCT signature, stdlib twin-TBS, issuer objects, get-roots and no-leaf monitors.",
+   ref="5 (C09)", note="Everything inside ctfe.ValidateChain, x509.ParseCertificate, x509.BuildPrecertTBS, json, PEM parsing is an oracle modelled by contract only (contract checked per case against the generator); ct-go shares BuildPrecertTBS with sunlight, hence the stdlib-built twin; pool admission is C17's; Coq kernel, extraction, OCaml SHA-256, Go harness trusted.",
+   technique="Coq theorems relating a transcription of the handler to a separately written RFC 6962 entry specification under oracle premises + extracted-model differential and independent-implementation monitors on generated real chains"),
  "C10": dict(
    text="Proof (Coq, all inputs): the leaf/extension/tile-path codec model is a canonical bijection (9 theorems, closed under the global context); the model is tied to tile.go/extensions.go by a differential run of the extracted model against the Go functions on ~20k generated and mutated inputs per quick run, plus implementation-side monitors of every clause.",
    ref="5 (C10)",
@@ -41,6 +49,10 @@ CHECKS = {
    text="Proof (Coq, all directories and sizes, both path flavours, Go int wrap-around included): every path the cleanup removes is a partial tile (or its emptied .p directory) whose non-empty full tile exists strictly left of the right edge of the tree of the given size; no tile of any tree of size >= that size is ever removed (superseded_safe arithmetic), so a complete published tree, a lock-store tree ahead of it, and mirror trees stay complete. Tie: the UNMODIFIED partial-aftersun binary on real sequencer-built LocalBackend directories at sizes around level-0/level-1 boundaries (incl. 65535..65537), lock-ahead states, planted leftovers, mirror directories and synthetic directories; deleted set and exit class reproduced by the extracted model; audit + LoadLog + one more round after cleaning.",
    ref="5 (C18), 2.4", note="Trusted: Coq kernel, extraction + OCaml/Go drivers, the transcription GC/Model.v of cleanDir/overrideImmutable; os.Root, ReadDir order, unlink and the immutable-flag ioctl are specified not modelled; symlinks and concurrent writers out of scope; 'can restart and sequence' is shown by monitors, not a theorem. Observations outside C18's quantifier (stray directory named with level 2^61-1 wraps the tile size; levels 7..2^60 panic; any unparsable entry such as a durable.WriteFile temp leftover stops the walk with exit 1, deleting nothing wrongly) are recorded in DESIGN.md.",
    technique="Coq proof about an executable transcription of cleanDir + differential run of the unmodified partial-aftersun binary on real and synthetic directories with audit/reload monitors"),
+ "C11": dict(
+   text="Proof (Coq, all messages, blobs, names, sizes, roots, timestamps, key kinds and raw signature primitives): exact characterisation of the RFC 6962 note verifier (verifier_iff), injectivity of the STH signature input, strictness corollaries (origin, extension, trailing bytes, algorithm, changed tuple => different signed bytes), checkpoint text codec round trip and the exact extent of its non-canonicity (refuted converse with witnesses), every signTreeHead result opens with both verifiers, embeds the time and passes the independent verifier, signing is a function of its inputs (19 theorems, closed). Tie: extracted-model differential (~15k lines per run incl. every verifier-closure call made by note.Open on ~9k byte-level mutants) plus monitors against certificate-transparency-go's verifier and filippo.io/mldsa on real signatures.",
+   ref="5 (C11), 0.2", note="Unforgeability of ECDSA/RSA/ML-DSA appears only as explicit hypotheses; RFC 6979 determinism is observed, not proved; note, torchwood, base64, cryptobyte, ct-go serialisation are modelled dependencies tied differentially; note.Sign/Open modelled at the signature-line level; Coq kernel, extraction, drivers trusted. Known finding C11-ctl-origin.",
+   technique="Coq proofs over an executable Gallina model with symbolic signatures + extracted-model differential and independent-verifier monitors on real signatures"),
  "C17": dict(
    text="Proof (Coq, all pools/arrival orders/victim choices): the admission function (mutex-protected part of addLeafToPool) keeps the pool within its size, rejects low priority when full, evicts exactly one pending low-priority entry for a high-priority one (else rejects), and rejects everything once closed; the stop paths are part of the sequencer model. Tie: pool-size 1..3 scenarios, clock-stall fatal stops and cancellations against real RunSequencer goroutines; every waiter outcome compared.",
    ref="5 (C17)", note=SEQ_NOTE + " 'Promptly' is checked by the harness only as 'returns within the quiescence window'.", technique="Coq theorems about the admission function + differential pool/stop histories"),
